@@ -262,3 +262,60 @@ Proof. vm_compute. split; reflexivity. Qed.
 Example inferred_depth_two_rejected :
   exists E, check_program_inf (inf_D [[t_number]; [t_string]]) inf_R [] [(5, 1, false)] = Ok ((false, Some E), true).
 Proof. eexists. vm_compute. reflexivity. Qed.
+
+(* ---------------------------------------------------------------------------------
+   Added after the second round of seeding (C11-6, C11-4).
+
+   "Base facts written in the program are subject to the same guarantee": when the model
+   accepts with its certificates, every unit clause of the text - of whichever declared
+   predicate, wherever it stands in the text, whatever unit clauses the other predicates
+   have - is a member of a declared row of ITS OWN predicate.  PARTIAL as above (model,
+   fragment, exactness flag). *)
+From MV Require Import Analysis.BoundsBaseFacts.
+
+Theorem base_facts_in_text_conform_partial :
+  forall (D : decls) (R : list clause) (init : list fact),
+    check_program D R init = Ok (true, true) ->
+    forall f, In f init ->
+      match lookup_decl (fst f) D with
+      | Some rows => exists r, In r rows /\ Forall2 (fun t c => T.has_type t (inj c) = true) r (snd f)
+      | None => True
+      end.
+Proof. exact base_facts_conform. Qed.
+Print Assumptions base_facts_in_text_conform_partial.
+
+(* non-vacuity, and the witness of the seeded change C11-6:
+     Decl p0(X) bound [/string].  Decl p1(X) bound [/number].  p0("heavy").  p1(12).     passes;
+     p0("heavy").  p1("12").  is rejected by the model in both textual orders (the seeded change recorded the
+     observation fn:Rel(/string) for p0 only, accepted the program, and p1("12") was stored). *)
+Definition bf_D : decls := [ (0, [[t_string]]); (1, [[t_number]]) ].
+
+Example base_facts_hypotheses_satisfiable :
+  check_program bf_D [] [ (0, [CStr [104; 101; 97; 118; 121]]); (1, [CNum 12]) ] = Ok (true, true).
+Proof. vm_compute. reflexivity. Qed.
+
+Example base_facts_same_shape_rejected :
+  (exists e, check_program bf_D [] [ (0, [CStr [104; 101; 97; 118; 121]]); (1, [CStr [49; 50]]) ] = Ok (false, e)) /\
+  (exists e, check_program bf_D [] [ (1, [CStr [49; 50]]); (0, [CStr [104; 101; 97; 118; 121]]) ] = Ok (false, e)).
+Proof. split; eexists; vm_compute; reflexivity. Qed.
+
+(* the witness of the seeded change C11-4 in the form the model covers (a struct-typed variable copied from a
+   declared predicate; struct CONSTANTS are outside the Datalog model):
+     Decl p0(X) bound [fn:Struct(/id,/number,fn:opt(/note,/string))].
+     Decl p1(X) bound [fn:Struct(/id,/number,/note,T)].        p0(X) :- p1(X).
+   passes for T = /string and is rejected for T = /number: a field the declaration marks optional is compared
+   with the REQUIRED field of the inferred struct type that supplies it. *)
+Definition st_id : T.str := [47; 105; 100].
+Definition st_note : T.str := [47; 110; 111; 116; 101].
+Definition st_D (t : T.ty) : decls :=
+  [ (0, [[T.TStruct [(st_id, t_number)] [(st_note, t_string)]]]);
+    (1, [[T.TStruct [(st_id, t_number); (st_note, t)] []]]) ].
+Definition st_R : list clause := [ mkClause (mkAtom 0 [TVar 0]) [PAtom (mkAtom 1 [TVar 0])] [] ].
+
+Example optional_struct_field_supplied_accepted :
+  exists e, check_program (st_D t_string) st_R [] = Ok (true, e).
+Proof. eexists. vm_compute. reflexivity. Qed.
+
+Example optional_struct_field_wrong_type_rejected :
+  exists e, check_program (st_D t_number) st_R [] = Ok (false, e).
+Proof. eexists. vm_compute. reflexivity. Qed.
